@@ -4,16 +4,16 @@ directories the seeds came from are not needed)."""
 import json, glob, os, re
 ROOT='/verif/seeded'
 lines=['# Seeded changes: what is kept here and which check catches what','',
- 'Produced by fresh sub-agents that saw only one property and a scratch worktree (from round 2 on: a worktree without the contract files).',
+ 'Produced by fresh sub-agents that saw only one property and a scratch worktree (the worktree is a checkout of /repo; from round 9 on the first-run trial runs a frozen copy of the committed checks against a scratch worktree with the seed applied, tools/first_run.sh).',
  'Confirmation = in a scratch worktree: the demonstration passes on the unchanged code, fails with the patch, and the full suite passes with the patch.',
  'Detection = `tools/try_seed.sh <patch> <property>` (applies the patch to /repo transiently, runs the quick check, reverts); `tools/replay_seeded.sh` replays all of them from this directory.','',
- '| seed | where | confirmed | first run (rounds 2-5) | check result now | first obligations reported | written after the seed was seen |','|---|---|---|---|---|---|---|']
+ '| seed | where | confirmed | first run | check result now | first obligations reported | written after the seed was seen |','|---|---|---|---|---|---|---|']
 rows=[]
-for f in sorted(glob.glob(ROOT+'/C??/r?_?/meta.json')):
+for f in sorted(glob.glob(ROOT+'/C??/r*_?/meta.json')):
     m=json.load(open(f))
     P=f.split('/')[-3]; rd,n=f.split('/')[-2].split('_')
     rows.append((rd,P,n,m))
-rows.sort(key=lambda r:(r[0],r[1],r[2]))
+rows.sort(key=lambda r:(int(r[0][1:]),r[1],r[2]))
 summ={}
 for rd,P,n,m in rows:
     where=m.get('summary','').split(':')[0][:70].replace('|','/')
@@ -25,7 +25,7 @@ for rd,P,n,m in rows:
     lines.append(f"| {rd} {P}/{n} | {where} | yes{' (rebased)' if m.get('rebased_onto_current_tree') else ''} | {first} | {'CAUGHT' if caught else 'MISSED'} | {obs} | {after} |")
     s=summ.setdefault(rd,[0,0,0]); s[0]+=1; s[1]+=1 if caught else 0; s[2]+=1 if first.startswith('caught') else 0
 lines+=['','## Summary','','| round | kept (confirmed) | reported by the current checks | reported on the first run, before any strengthening for that seed |','|---|---|---|---|']
-for rd in sorted(summ):
+for rd in sorted(summ,key=lambda x:int(x[1:])):
     k,c,f=summ[rd]
     lines.append(f"| {rd} | {k} | {c} | {'not recorded (the checks were being written while these seeds came in)' if rd=='r1' else f} |")
 open(ROOT+'/RESULTS.md','w').write('\n'.join(lines)+'\n')
